@@ -198,7 +198,12 @@ def wire_ids(ctx, rng, debug_logging):
     import logging
     import simdev
     import vloop
-    dev = simdev.SimDevice(version=2, device_id=55)
+    # the unit answers with real state responses whose body check is the CRC-8 or the additive checksum (both legal):
+    # what the unit sends must have no influence on the well-formedness of what the library emits next
+    import specac
+    style = rng.choice(["crc", "sum"])
+    dev = simdev.SimDevice(version=2, device_id=55, responder=specac.SpecAC(ctx, style=style)) if ctx.driver else \
+        simdev.SimDevice(version=2, device_id=55)
     start = rng.randrange(0, 600)
     ops = [rng.choice(["refresh", "apply", "get_capabilities", "toggle_display", "refresh"]) for _ in range(rng.randrange(3, 8))]
     res = {}
@@ -229,12 +234,22 @@ def wire_ids(ctx, rng, debug_logging):
             lg.removeHandler(handler)
         lg.setLevel(prev_level)
         logging.disable(prev_disable)
-    frames = [f for f in dev.frames()]
+    frames = []
+    for f in dev.frames():
+        if not frames or frames[-1] != f:        # a retransmission of an unanswered command is the same command
+            frames.append(f)
     ids = [f[-3] for f in frames if len(f) >= 13]
     inp = {"ops": ops, "start": start, "debug_logging": debug_logging}
     stream = "wire_ids_logging" if debug_logging else "wire_ids"
     if "exc" in res:
         ctx.violate(stream, inp, res["exc"], "operations return", "operation raised")
+    if ctx.driver:
+        for f in frames:
+            r = ctx.driver.ask(f"spec_parse_frame frame={hx(f)}")
+            if not r.startswith("ok"):
+                ctx.violate(stream, {**{"ops": ops, "reply_check_style": style}, "frame": hx(f)}, r, "a well-formed frame",
+                            "a frame the unit received on the wire is not well-formed (start, length, type, CRC-8, checksum)")
+                break
     want = [(start + 1 + i) % 256 for i in range(len(ids))]
     if ids != want:
         ctx.violate(stream, inp, {"ids": ids[:12]}, {"ids": want[:12]},
